@@ -122,6 +122,7 @@ class Registry:
         self.macros: dict[str, tuple] = {}        # spec macros: name -> ([param names], expression)
         self.axioms: list = []                    # [Clause] closed spec axioms (assumed; listed in evidence)
         self.lemmas: dict[str, dict] = {}         # lemma name -> {hyps:[...], goal: str, vars: {...}, serves}
+        self.lemma_groups: dict[str, list] = {}   # lemma proved by cases -> names of its sub-lemmas
         self.scope: dict[str, int] = {}
         self.exc_parents: dict[str, str] = {}     # exception kind -> parent kind
         self.transparent_cms: set = set()         # context managers treated as transparent
@@ -227,7 +228,29 @@ class Registry:
         self.contracts[key] = c
         return c
 
-    def lemma(self, name, *, vars, hyps, goal, serves=(), note=''):
+    def lemma(self, name, *, vars, hyps, goal, serves=(), note='', cases=None):
+        """`cases`: {label: condition}.  The lemma is then proved as one sub-lemma per case (the condition added to the
+        hypotheses) plus `cases-exhaustive` (the hypotheses imply that some case applies); asking for `name` proves all
+        of them.  Keeps each solver query small."""
+        if cases:
+            subs = []
+            hs = _clauses(hyps)
+            conds = []
+            for lab, cond in cases.items():
+                # a case is `condition` or `(condition, [indices of the hypotheses this case uses])`: using fewer
+                # hypotheses is sound and keeps quantified hypotheses out of queries that do not need them
+                use = list(range(len(hs)))
+                if isinstance(cond, tuple):
+                    cond, use = cond
+                conds.append(cond)
+                sub = f'{name}/case-{lab}'
+                self.lemmas[sub] = dict(vars=vars, hyps=[hs[i] for i in use] + [C(cond, f'case {lab}')], goal=C(goal), serves=tuple(serves), note=note)
+                subs.append(sub)
+            ex = f'{name}/cases-exhaustive'
+            self.lemmas[ex] = dict(vars=vars, hyps=[], goal=C(' or '.join(f'({c})' for c in conds)), serves=tuple(serves),
+                                   note='the case split of ' + name + ' covers every value')
+            self.lemma_groups[name] = subs + [ex]
+            return
         self.lemmas[name] = dict(vars=vars, hyps=_clauses(hyps), goal=C(goal), serves=tuple(serves), note=note)
 
     def alias(self, owner, meth, key):
